@@ -424,3 +424,53 @@ impl VAnonSender {
     self.0.try_send_sync(batch).is_ok()
   }
 }
+
+
+// ---------------------------------------------------------------------------------------------
+// io_uring send-buffer pool (zero-copy send): acquire / lease / release bookkeeping
+// ---------------------------------------------------------------------------------------------
+
+#[cfg(feature = "io-uring")]
+pub struct VSendPool {
+  _ring: io_uring::IoUring,
+  pool: Arc<crate::io_uring_backend::send_buffer_pool::SendBufferPool>,
+  leases: std::collections::HashMap<u16, crate::io_uring_backend::send_buffer_pool::SendBufferLease>,
+}
+
+#[cfg(feature = "io-uring")]
+impl VSendPool {
+  pub fn new(count: usize, capacity: usize) -> Result<Self, String> {
+    let ring = io_uring::IoUring::new(8).map_err(|e| e.to_string())?;
+    let pool = crate::io_uring_backend::send_buffer_pool::SendBufferPool::new(&ring, count, capacity).map_err(|e| e.to_string())?;
+    Ok(Self { _ring: ring, pool: Arc::new(pool), leases: Default::default() })
+  }
+  /// `acquire_and_prep_buffer` with `len` bytes of data
+  pub fn acquire(&self, len: usize) -> Option<u16> {
+    self.pool.acquire_and_prep_buffer(&bytes::Bytes::from(vec![7u8; len])).map(|(id, _, _)| id.0)
+  }
+  pub fn lease(&mut self) -> Option<u16> {
+    let l = self.pool.acquire_lease()?;
+    let id = l.id.0;
+    self.leases.insert(id, l);
+    Some(id)
+  }
+  /// drop a lease; `handed_over` = it had been given to the worker (which releases the buffer itself later)
+  pub fn drop_lease(&mut self, id: u16, handed_over: bool) -> bool {
+    match self.leases.remove(&id) {
+      Some(l) => {
+        if handed_over {
+          l.released_to_worker.store(true, std::sync::atomic::Ordering::Release);
+        }
+        drop(l);
+        true
+      }
+      None => false,
+    }
+  }
+  pub fn release(&self, id: u16) {
+    self.pool.release_buffer(crate::io_uring_backend::send_buffer_pool::RegisteredSendBufferId(id))
+  }
+  pub fn state(&self) -> (Vec<u16>, Vec<bool>) {
+    self.pool.verif_state()
+  }
+}
